@@ -15,7 +15,7 @@ CHECKS = {
               "run: for every key type, capacity >= 1, wrapped function and EVERY call history (induction, no bound) the generated closure is "
               "transparent, bounded, keeps exactly the cap most recently used keys in LRU order and consults the wrapped function only at "
               "misses. The tie is checked two ways: re-translation + bridge lemma gen = spec, and differential runs of the extracted model "
-              "against the real lru_cache on all histories over 4 keys up to length 6 (quick) / 8 (thorough) for capacities 1..3 plus random long ones."),
+              "against the real lru_cache on all histories over 4 keys up to length 6 (quick) / 8 (thorough) for capacities 1..3 plus random long ones; the implementation is also run with wrapped functions returning None / 0 / '' / False (calls = reference misses) and with ONE mutable argument edited in place between calls."),
         ref="DESIGN.md section 3 (C20)",
         note=TB_COMMON + "Hypotheses of the theorem: hash_func total and not conflating calls with different results, max_length >= 1, wrapped function returns. Not modelled: mutable_pseudo_hash, cache state after an exception, threads.",
         technique="Coq proof by induction over call histories (refinement to an abstract LRU) on a model translated from source each run; bridge lemma + extracted-model differential test as the tie",
@@ -26,7 +26,7 @@ CHECKS = {
               "guard/transformer behaviour (incl. raising and state-writing ones) - fresh state per call and per column, threaded through every guard "
               "and transformer - and that this functional walk coincides with the fuel-free relational reference semantics. Tie: re-translation + "
               "bridge lemmas, and differential runs of the generated engine (vm_compute) against real visions on hundreds of random user-defined type "
-              "systems (class-based and create_type, per-class dispatch) over all inputs of their universes."),
+              "systems (class-based and create_type, per-class dispatch) over all inputs of their universes, incl. systems with cyclical relations (walks that revisit a type, RecursionError = out of fuel) and identity relations carrying their own transformer; an order-aware oracle predicts the exact state log from the real successor order."),
         ref="DESIGN.md section 3 (C12)",
         note=TB_COMMON + "Hand models validated by the correspondence: networkx DiGraph subset (NxModel.v), attr.evolve defaults of VisionsBaseTypeMeta.relations and multimethod dispatch (RunnerEngine.v). set iteration order is read from the interpreter. Fuel bounds recursion in the model.",
         technique="Coq proof (bridge: generated engine = reference walk; walk <-> relational semantics) on a model translated from source each run; random-type-system differential test as tie",
@@ -51,7 +51,7 @@ CHECKS = {
         text=("Coq proof about the GENERATED _traverse_graph_dataframe / VisionsTypeset.* / functional.*: for every frame with unique labels, type system and graph, "
               "the data, path and state components are label-for-label and in column order the results of an independent fresh traversal of each column; the "
               "functional wrappers equal the methods. pd.DataFrame(dict) is an uninterpreted re-assembly function; that it keeps equally-indexed columns is checked "
-              "on the implementation by an oracle comparing frame results with per-column results (types, casts incl. dtype and index, sub-frames, comparison and report functions)."),
+              "on the implementation by an oracle comparing frame results with per-column results (types, casts incl. dtype and index, sub-frames, comparison and report functions; >= 1000-row frames; the same frame object edited in place and typed again)."),
         ref="DESIGN.md section 3 (C08)",
         note=TB_COMMON + "pd.DataFrame(dict of Series), df.columns and df[col] are uninterpreted functions of the model (frame_of_dict, frame_columns, frame_getitem). Column labels are compared with a decidable equality assumed correct.",
         technique="Coq proof (bridge + list induction) that the generated DataFrame traversal is a map of independent per-column walks; DataFrame-vs-columns oracle on the implementation",
@@ -108,7 +108,7 @@ CHECKS = {
               "relation table: for EVERY Spark SQL type expression (induction-free case analysis over the type language incl. arbitrarily nested array/map/struct), column name and "
               "nullable flag, StandardSet, StandardSet+Date and CompleteSet type a column by the documented map (nearest included ancestor otherwise), from the schema alone - rows are "
               "not an input of the model; the frame handed back is the input frame. The pyspark class hierarchy is measured from the installed library. A local Spark session compares the "
-              "model with the implementation for every constructor x typeset and checks rows/nullability/position/name independence and the job counter."),
+              "model with the implementation for every constructor x typeset and checks rows/nullability/position/name independence and the job counter, and a fresh process importing visions before pyspark."),
         ref="DESIGN.md section 3 (C17)",
         note=TB_COMMON + "Measured (not verified): isinstance table of pyspark DataType classes. Hand model: relations/dispatch for Spark frames (props/C17.v spark_relations). Partial: 'no Spark job' is only observable dynamically (status tracker). Known finding F17b (dotted column names).",
         technique="Coq proof by case analysis over a Spark type language on generated contains_ops + engine; Spark-session differential test and property oracle",
@@ -143,7 +143,7 @@ CHECKS = {
               "REGENERATED from source: for ALL abstract series - any tuple of answers of the pandas.api.types predicates (a superset of pandas dtypes), any list of value kinds "
               "with flags, any length - child membership implies parent membership; the side conditions are exactly the recorded findings, each refuted with a computed witness "
               "(categorical series of dates in Date not Object; existing relative path in File not Path). The model is validated against `series in T` for all 24 types on thousands "
-              "of abstracted series per run incl. every dtype x up to two value kinds; the numpy backend is judged by the oracle only."),
+              "of abstracted series per run incl. every dtype x up to two value kinds; the numpy backend is judged by the oracle only; file-system histories (create / remove / replace files, a symbolic link, a directory) are run between membership tests of Path / File / Image."),
         ref="DESIGN.md section 3 (C16)",
         note=TB_COMMON + "Measured, not verified: per-kind isinstance/class-name/hasattr facts, astype(str) round trip, 'unsigned implies integer' for dtype facts. Abstraction in lib/Values.v (no adversarial objects). Known findings F16b, F16c; F16a repaired.",
         technique="Coq proof per identity edge over an abstract series universe on predicates translated from source; extracted-model differential test over a bounded-exhaustive dtype x kind grid",
@@ -178,7 +178,7 @@ CHECKS = {
         text=("Coq proof over the GENERATED engine: identity_transform returns its argument; a traversal taking only identity-transformer relations - every detect, and every infer without an "
               "inference edge - returns the very data it was given (for contains-guarded graphs detect's data component is the input and the state is untouched). Non-mutation: model values are "
               "immutable, the translator rejects stores into arguments; on the implementation deep snapshots (values, dtype, index, name, element identities) are compared around every public "
-              "call and around every relation, accepted or rejected, for pandas, numpy, list and DataFrame inputs, and object identity of no-op casts is checked with `is`."),
+              "call and around every relation, accepted or rejected, for pandas, numpy, list and DataFrame inputs, and object identity of no-op casts is checked with `is` (also for an equal twin processed next, for non-contiguous numpy views and for frames with non-string labels)."),
         ref="DESIGN.md section 3 (C05)",
         note=TB_COMMON + "Object identity and in-place mutation inside third-party libraries are runtime behaviour the model cannot exhibit: partial, covered by the dynamic snapshots.",
         technique="Coq proof (no-op traversals return their input) + translator effect discipline + snapshot/identity oracle",
@@ -213,7 +213,7 @@ CHECKS = {
               "pandas options, cwd), extracted from the source on every run, under a small-step semantics in which opaque code may raise or not at every point: whatever raises, every cell "
               "holds afterwards what it held on entry (the pre-repair pattern - restoring sys.__stderr__ instead of the saved stream - is rejected by the same semantics). Independence from "
               "enumeration order is C02's theorem. History, other typesets, fresh processes and hash seeds are decided on the implementation: random API histories with a global snapshot "
-              "after every call under a redirected stderr, probes before/after, subprocesses with different PYTHONHASHSEED."),
+              "after every call under a redirected stderr, probes before/after (series and string-labelled frames, order-sensitive), calls under -W error::<category>, a snapshot of every typeset of the history after every call, same values under another index on one typeset, subprocesses with different PYTHONHASHSEED."),
         ref="DESIGN.md section 3 (C10)",
         note=TB_COMMON + "Partial: effects inside third-party libraries, address/hash-seed dependence and dispatch registries are runtime behaviour only observable dynamically. The effect extractor is syntactic (a global write through an alias or setattr is outside it). Known finding F10b.",
         technique="Coq computation over extracted effect programs (all raise/no-raise oracles) + history/global-snapshot/subprocess oracle",
